@@ -134,9 +134,11 @@ CLAIMED = {
     "C13": dict(
         text="The real run_timeseries -> run_loop -> pandapower.run_time_step -> run_control -> ConstControl chain runs on a "
              "profile frame of symbols with the real (symbolically executed) pipeflow as run function; for every enumerated "
-             "step list z3 proves each captured result cell equal to that of a stand-alone symbolic pipeflow with the step's "
-             "profile symbols, a free-variable check shows that no symbol of another step occurs, and forced divergence at every "
-             "subset of steps must be flagged exactly and, with continue_on_divergence, leave later steps unchanged.",
+             "step list z3 proves the Newton system each step assembled and each captured result cell equal to those of a "
+             "stand-alone symbolic pipeflow with the step's profile symbols, a free-variable check shows that no symbol of "
+             "another step occurs in system or results, and divergence (forced verdicts, a feeder switched off by a profile) at "
+             "every subset of steps must be flagged exactly and, with continue_on_divergence, leave later steps unchanged; a "
+             "profile that switches a pipe under the matrix-update option must not carry internal data from step to step.",
         technique="symbolic execution through the real time-series loop + z3 equivalence per step, taint by free variables; "
                   "divergence patterns enumerated; counterexamples replayed on the real run_timeseries",
         design="4/C13"),
@@ -187,8 +189,9 @@ CLAIMED = {
         text="The real coupling controllers (P2G, G2P power- and gas-led, gas-to-gas) execute control_step / write_to_net on "
              "tables with symbolic power, mass flow, scaling, efficiency and heating values (scalar and vector indices) and z3 "
              "proves the written value to be the documented conversion; round trips return the product of the efficiencies "
-             "(NRA); the real run_control of a multinet (power flow stubbed, pipe net calculated symbolically) is proved to "
-             "leave the pipe net with exactly the results of a stand-alone symbolic pipeflow with the written values; the "
+             "(NRA); the real run_control of a multinet (power flow stubbed, pipe nets calculated symbolically; power-to-gas, "
+             "gas-to-gas with an otherwise uncontrolled target net, two couplings in one level) is proved to leave the pipe "
+             "net with exactly the Newton system and results of a stand-alone symbolic pipeflow with the written values; the "
              "combined convergence flag of _evaluate_multinet is evaluated over all verdict patterns of <= 3 nets.",
         technique="symbolic execution of the real controller / run_control code + z3 term identities; verdict patterns "
                   "enumerated; counterexamples replayed with floats on the real functions",
